@@ -22,6 +22,10 @@ struct RunReq {
     owned: u8,
     /// selectors of requested outputs among all named values (inputs, constants, intermediates)
     outputs: Vec<u16>,
+    /// Some(sel): additionally supply an (altered) value for that intermediate
+    /// value, overriding what the graph would compute
+    #[serde(default)]
+    cut: Option<u16>,
 }
 
 #[derive(Clone, Debug, Serialize, Deserialize)]
@@ -69,8 +73,15 @@ struct Outcome {
     result: Result<Vec<TVal>, String>,
 }
 
-fn do_run(model: &rten::Model, built: &Built, req: &RunReq, names: &[String]) -> Result<(Outcome, Vec<String>), Verdict> {
-    let inputs: Vec<(String, TVal)> = built.inputs.iter().map(|(n, v)| (n.clone(), variant_of(v, req.variant))).collect();
+fn do_run(model: &rten::Model, built: &Built, req: &RunReq, names: &[String], cuts: &[(String, TVal)]) -> Result<(Outcome, Vec<String>), Verdict> {
+    let mut inputs: Vec<(String, TVal)> = built.inputs.iter().map(|(n, v)| (n.clone(), variant_of(v, req.variant))).collect();
+    if let (Some(sel), false) = (req.cut, cuts.is_empty()) {
+        let (n, v) = &cuts[((sel as usize) * cuts.len()) >> 16];
+        if !inputs.iter().any(|(m, _)| m == n) {
+            // an altered value, so that ignoring the override is observable
+            inputs.push((n.clone(), variant_of(v, 3)));
+        }
+    }
     let values: Vec<Value> = inputs.iter().map(|(_, v)| v.to_value()).collect();
     let mut ins: Vec<(NodeId, ValueOrView)> = Vec::new();
     for (i, (name, _)) in inputs.iter().enumerate() {
@@ -129,15 +140,24 @@ fn oracle(profile: &Profile, c: &Case) -> Verdict {
     if names.is_empty() {
         return Verdict::pass(false);
     }
+    // intermediate values that can be supplied as overriding inputs
+    let mut cuts: Vec<(String, TVal)> = Vec::new();
+    if let Ok(Ok(probe)) = vcore::catch(|| cfg.load(&bytes)) {
+        for v in built.values.iter().filter(|v| v.kind == VKind::Inter) {
+            if let Ok(Ok(r)) = vcore::catch(|| run_named(&probe, &built.inputs, &[v.name.clone()], None, None)) {
+                cuts.push((v.name.clone(), r[0].clone()));
+            }
+        }
+    }
     let consts0 = constants(&model);
     let mut ok_runs = 0;
     let mut last: Option<(RunReq, Vec<String>, Vec<TVal>)> = None;
     for req in &c.history {
-        let (first, out_names) = match do_run(&model, &built, req, &names) {
+        let (first, out_names) = match do_run(&model, &built, req, &names, &cuts) {
             Ok(x) => x,
             Err(v) => return v,
         };
-        let (second, _) = match do_run(&model, &built, req, &names) {
+        let (second, _) = match do_run(&model, &built, req, &names, &cuts) {
             Ok(x) => x,
             Err(v) => return v,
         };
@@ -153,6 +173,21 @@ fn oracle(profile: &Profile, c: &Case) -> Verdict {
                     }
                 }
                 last = Some((req.clone(), out_names.clone(), a.clone()));
+                // every run equals the same run on a freshly loaded model
+                if let Ok(Ok(fresh)) = vcore::catch(|| cfg.load(&bytes)) {
+                    if let Ok((o, _)) = do_run(&fresh, &built, req, &names, &cuts) {
+                        if let Ok(vs) = o.result {
+                            for ((n, x), y) in out_names.iter().zip(a).zip(&vs) {
+                                if !bits_equal(x, y) {
+                                    return Verdict::fail(
+                                        "history-affects-result",
+                                        format!("output {n}: on the used model {x:?}, on a fresh model {y:?} (request {req:?}); ops={:?}", built.op_types),
+                                    );
+                                }
+                            }
+                        }
+                    }
+                }
             }
             (Err(_), Err(_)) => {}
             (a, b) => {
@@ -180,7 +215,7 @@ fn oracle(profile: &Profile, c: &Case) -> Verdict {
     // the final run equals the same run on a fresh model
     if let Some((req, out_names, expect)) = last {
         if let Ok(Ok(fresh)) = vcore::catch(|| cfg.load(&bytes)) {
-            if let Ok((o, _)) = do_run(&fresh, &built, &req, &names) {
+            if let Ok((o, _)) = do_run(&fresh, &built, &req, &names, &cuts) {
                 match o.result {
                     Ok(vs) => {
                         for ((n, x), y) in out_names.iter().zip(&expect).zip(&vs) {
@@ -234,7 +269,8 @@ fn main() {
          position. Distinct = distinct case value.",
     );
     ck.set_threads(12);
-    let req = (any::<u8>().prop_map(|v| v % 4), any::<u8>(), proptest::collection::vec(any::<u16>(), 0..4)).prop_map(|(variant, owned, outputs)| RunReq { variant, owned, outputs });
+    let req = (any::<u8>().prop_map(|v| v % 4), any::<u8>(), proptest::collection::vec(any::<u16>(), 0..4), proptest::option::weighted(0.3, any::<u16>()))
+        .prop_map(|(variant, owned, outputs, cut)| RunReq { variant, owned, outputs, cut });
     let n = ck.pick(4000, 100_000);
     let p1 = Profile::inplace_biased();
     let mk = |max_nodes: usize| {
